@@ -120,6 +120,8 @@ class Interp:
             i = self.ev(e.slice, st)
             if isinstance(v, tuple) and v and v[0] == "split" and i in (0, 1):
                 return v[1 + i]
+            if isinstance(v, tuple) and v and v[0] == "split3" and i in (0, 1, 2, -1, -3):
+                return v[1 + (i % 3)]
             raise AnalysisError("C20 interpreter: subscript %s" % norm(e))
         if isinstance(e, ast.Call):
             return self.call(e, st)
@@ -305,6 +307,12 @@ class Interp:
                 carry = self.bits.get(("c6" if digits == 6 else "c1", val.src), 0)
                 expo = 0 if val.L == ZERO else val.L + carry
                 return ("split", ("mant", val, digits), ("expstr", expo))
+            if f.attr in ("partition", "rpartition") and args == ["e"] and isinstance(recv, tuple) and recv[0] == "sci":
+                # a scientific print holds exactly one "e": both directions cut at the same place
+                val, digits = recv[1], recv[2]
+                carry = self.bits.get(("c6" if digits == 6 else "c1", val.src), 0)
+                expo = 0 if val.L == ZERO else val.L + carry
+                return ("split3", ("mant", val, digits), "e", ("expstr", expo))
             if f.attr == "replace" and args == [".", ""] and isinstance(recv, tuple) and recv[0] == "mant":
                 return ("digits", recv[1], recv[2] + 1)
             if f.attr in ("lstrip", "strip") and args in (["-"], ["+-"], ["-+"]) and isinstance(recv, tuple) and recv[0] == "fixed":
